@@ -164,3 +164,492 @@ def regenerate(ctx):
   core.write_if_changed(os.path.join(gen, 'Tzdata_gen.v'), agg)
   ctx.extra['zones'] = len(zones)
   ctx.extra['transitions'] = sum(len(z.untils) for z in zones)
+
+
+# ---------------------------------------------------------------------------------------------
+# the implementation, driven with real datetime/timedelta objects; all values exact integers (microseconds)
+
+def _m():
+  import moment
+  return moment
+
+
+def td_us(td):
+  return None if td is None else td // US
+
+
+def naive_us(dt):
+  return (dt.replace(tzinfo=None) - _m().EPOCH) // US
+
+
+def us_naive(us):
+  return _m().EPOCH + _dt.timedelta(microseconds=us)
+
+
+def ts_value(t_us):
+  """The timestamp (seconds) to hand to ts_to_dt for the instant t_us: int when whole, else the float."""
+  if t_us % 1000000 == 0:
+    return t_us // 1000000
+  ts = t_us / 1e6
+  return ts if _dt.timedelta(seconds=ts) == _dt.timedelta(microseconds=t_us) else None
+
+
+def impl_utc(zd, t_us):
+  """ts_to_dt / dt_to_ts of the implementation at the instant t_us. Returns a dict of exact integers."""
+  m = _m()
+  zone = zd.zone
+  ts = ts_value(t_us)
+  if ts is not None:
+    dt = m.ts_to_dt(ts, zone)
+  else:      # float seconds cannot express this instant: same steps as ts_to_dt with an exact timedelta
+    dt = (m.EPOCH_UTC + _dt.timedelta(microseconds=t_us)).astimezone(zone.get_tzinfo(None))
+  off = dt.utcoffset()
+  back = dt.replace(tzinfo=None) - off - m.EPOCH      # dt_to_ts's expression before .total_seconds()
+  real_back = m.dt_to_ts(dt)
+  favor = getattr(dt.tzinfo, '_favor_offset', None)
+  return {'ts': ts, 'local': naive_us(dt), 'favor': td_us(favor), 'off': td_us(off), 'back': back // US,
+          'back_seconds_ok': real_back == back.total_seconds(), 'real_back': real_back,
+          'index': zone._index(m.utc_to_ts_ms(us_naive(t_us)))}
+
+
+def impl_local(zd, l_us, favor_us):
+  """Zone._index_dt / dt_offset / TzInfo.utcoffset / dt_to_ts for the naive local time l_us with a favor."""
+  m = _m()
+  zone = zd.zone
+  favor = None if favor_us is None else _dt.timedelta(microseconds=favor_us)
+  naive = us_naive(l_us)
+  idx = zone._index_dt(naive, favor)
+  off = zone.dt_offset(naive, favor)
+  aware = naive.replace(tzinfo=zone.get_tzinfo(favor))
+  off2 = aware.utcoffset()
+  ts = m.dt_to_ts(aware) if favor is not None else m.dt_to_ts(naive, zone)
+  exact = naive - off - m.EPOCH
+  return {'index': idx, 'off': td_us(off), 'off_tzinfo': td_us(off2), 'ts_us': exact // US,
+          'ts_ok': ts == exact.total_seconds()}
+
+
+# ---------------------------------------------------------------------------------------------
+# independent oracle from the raw tzdata records (linear scans, exact integers; no moment.Zone code)
+
+class Raw(object):
+  def __init__(self, name):
+    rec = _m().get_tz_data()[name]
+    self.untils = [int(u) * 1000 for u in rec.untils if not math.isinf(u)]      # us
+    self.east = []                                                                # us, east positive
+    for o in rec.offsets:
+      s = round(o * 60)
+      if abs(o * 60 - s) > 1e-6:
+        raise core.TieBroken('%s: offset %r minutes is not a whole number of seconds' % (name, o))
+      self.east.append(-s * 1000000)
+    self.n = len(self.untils)
+
+  def index(self, t_us):
+    k = 0
+    while k < self.n and self.untils[k] <= t_us:
+      k += 1
+    return k
+
+  def local_candidates(self, l_us):
+    """Intervals k in which some instant renders as the local time l_us."""
+    out = []
+    for k in range(self.n + 1):
+      t = l_us - self.east[k]
+      if (k == 0 or self.untils[k - 1] <= t) and (k == self.n or t < self.untils[k]):
+        out.append(k)
+    return out
+
+  def gap_of(self, l_us):
+    """Transition g whose gap holds the skipped local time l_us (local end of g <= l < local start of g+1)."""
+    for g in range(self.n):
+      if self.untils[g] + self.east[g] <= l_us < self.untils[g] + self.east[g + 1]:
+        return g
+    return None
+
+
+_RAW = {}
+
+
+def raw(name):
+  key = (core.GRIST, name)
+  if key not in _RAW:
+    _RAW[key] = Raw(name)
+  return _RAW[key]
+
+
+def oracle_roundtrip(zd, t_us):
+  """ts -> ts_to_dt -> dt_to_ts on the implementation, with the very functions and a real timestamp."""
+  m = _m()
+  ts = ts_value(t_us)
+  if ts is None:
+    return None
+  back = m.dt_to_ts(m.ts_to_dt(ts, zd.zone))
+  if back != ts:
+    return 'dt_to_ts(ts_to_dt(%r, %s)) = %r' % (ts, zd.name, back)
+  return None
+
+
+def oracle_local(zd, l_us, favor_us):
+  """The offset assigned to a local time is one the zone uses around it (raw data, linear scan)."""
+  m = _m()
+  r = raw(zd.name)
+  favor = None if favor_us is None else _dt.timedelta(microseconds=favor_us)
+  off = td_us(us_naive(l_us).replace(tzinfo=zd.zone.get_tzinfo(favor)).utcoffset())
+  cands = r.local_candidates(l_us)
+  if cands:
+    allowed = sorted({r.east[k] for k in cands})
+    if off not in allowed:
+      return 'local %s in %s (favor %r) gets offset %r us; the instants rendering as it have %r' % (
+        us_naive(l_us), zd.name, favor_us, off, allowed)
+    return None
+  g = r.gap_of(l_us)
+  if g is None:
+    return 'local %s in %s is neither a local time of an interval nor in a gap (oracle)' % (us_naive(l_us), zd.name)
+  if off not in (r.east[g], r.east[g + 1]):
+    return 'skipped local %s in %s gets offset %r us; the transition has %r -> %r' % (
+      us_naive(l_us), zd.name, off, r.east[g], r.east[g + 1])
+  return None
+
+
+KNOWN_DATE_KIND = 'date-zone:offset-taken-at-utc-midnight'
+
+
+def oracle_date_zone(zd, days):
+  """date -> date_to_ts(date, zone) -> ts_to_dt(.., zone).date(). Returns (kind, description) or None."""
+  m = _m()
+  d = m.DATE_EPOCH + _dt.timedelta(days=days)
+  ts = m.date_to_ts(d, zd.zone)
+  got = m.ts_to_dt(ts, zd.zone)
+  if got.date() == d:
+    return None
+  r = raw(zd.name)
+  mid = days * 86400 * 1000000
+  e_mid = r.east[r.index(mid)]
+  t_us = round(ts * 1000000)
+  what = 'date_to_ts(%s, %s) = %r which is %s local' % (d, zd.name, ts, got.replace(tzinfo=None))
+  if t_us == mid - e_mid and r.east[r.index(t_us)] != e_mid:
+    # exactly the known mechanism: the offset in effect at UTC midnight is not the one at the result
+    return KNOWN_DATE_KIND, what
+  return 'date-zone:other', what
+
+
+def oracle_date_utc(days):
+  m = _m()
+  d = m.DATE_EPOCH + _dt.timedelta(days=days)
+  ts = m.date_to_ts(d)
+  if ts != days * 86400:
+    return 'date_to_ts(%s) = %r' % (d, ts)
+  for extra in ((0, 1, 43200, 86399, 86399.999999) if abs(days) < 40000 else (0, 1, 43200, 86399)):
+    if m.ts_to_date(ts + extra) != d:
+      return 'ts_to_date(date_to_ts(%s) + %r) = %s' % (d, extra, m.ts_to_date(ts + extra))
+  return None
+
+
+# ---------------------------------------------------------------------------------------------
+# case generation
+
+H = 3600 * 1000000
+UTC_DELTAS = [-2 * H, -H - 1, -H, -1000000, -1, 0, 1, 1000000, H - 1, H, 2 * H]
+LOCAL_DELTAS = [-2 * H, -1000000, -1, 0, 1, 1000000, 2 * H]
+FEATURED = ['America/New_York', 'America/Los_Angeles', 'Australia/Sydney', 'Europe/London', 'UTC',
+            'Africa/Abidjan', 'America/Caracas', 'Australia/Lord_Howe', 'Asia/Kathmandu', 'Pacific/Apia',
+            'America/Sao_Paulo', 'Asia/Beirut', 'Europe/Dublin', 'Africa/Casablanca', 'Antarctica/Troll']
+
+
+def pick_transitions(ctx, zones):
+  """(zone, k) pairs: every transition in the thorough tier; featured zones + a random sample in quick."""
+  allp = [(zd, k) for zd in zones for k in range(len(zd.untils))]
+  if ctx.tier == 'thorough':
+    return allp
+  feat = [(zd, k) for zd in zones if zd.name in FEATURED[:4] for k in range(len(zd.untils))]
+  rest = ctx.rng.sample(allp, min(len(allp), 2500))
+  return feat + rest
+
+
+def utc_instants(ctx, zones, trans):
+  """[(zone, t_us, near)]: around every picked transition, plus random and far instants for every zone."""
+  out = []
+  for zd, k in trans:
+    u = zd.untils[k] * 1000
+    for d in UTC_DELTAS:
+      out.append((zd, u + d, True))
+  lo, hi = -2208988800 * 1000000, 2208988800 * 1000000        # 1900 .. 2040
+  for zd in zones:
+    for _ in range(ctx.n(2, 20)):
+      t = ctx.rng.randrange(lo, hi)
+      if ctx.rng.random() < 0.5:
+        t -= t % 1000000
+      out.append((zd, t, near_transition(zd, t)))
+    for t in (-62135596800 + 86400 * 400, 253402300799 - 86400 * 400, 0, 2 ** 31, -2 ** 31):
+      out.append((zd, t * 1000000, near_transition(zd, t * 1000000)))
+  return out
+
+
+def near_transition(zd, t_us, width=2 * H):
+  import bisect
+  us = zd.untils
+  i = bisect.bisect_left(us, (t_us - width) // 1000)
+  return i < len(us) and us[i] * 1000 <= t_us + width
+
+
+def local_instants(ctx, zones, trans):
+  """[(zone, l_us, favor_us, near)]: around both local breakpoints of every picked transition."""
+  out = []
+  rnd = ctx.rng
+  for zd, k in trans:
+    u = zd.untils[k] * 1000
+    e0, e1 = -zd.offsets[k] * 1000, -zd.offsets[k + 1] * 1000        # us east
+    ends = sorted({u + e0, u + e1})
+    pts = set()
+    for b in ends:
+      for d in LOCAL_DELTAS:
+        pts.add(b + d)
+    pts.add((ends[0] + ends[-1]) // 2)
+    for l in sorted(pts):
+      favors = [None, e0, e1]
+      if rnd.random() < 0.1:
+        favors.append(rnd.choice([0, 3600 * 1000000, -5 * 3600 * 1000000, 1800 * 1000000]))
+      for f in favors:
+        out.append((zd, l, f, True))
+  lo, hi = -2208988800 * 1000000, 2208988800 * 1000000
+  for zd in zones:
+    for _ in range(ctx.n(1, 10)):
+      l = rnd.randrange(lo, hi)
+      f = rnd.choice([None] + [-o * 1000 for o in zd.offsets])
+      out.append((zd, l, f, near_transition(zd, l, width=26 * H)))
+  return out
+
+
+def date_cases(ctx, zones, trans):
+  """[(zone, day)]: the dates around every picked transition, plus random dates."""
+  out = set()
+  for zd, k in trans:
+    day = zd.untils[k] // 86400000
+    for d in (day - 1, day, day + 1):
+      out.add((zd.name, d))
+  byname = {zd.name: zd for zd in zones}
+  for zd in zones:
+    for _ in range(ctx.n(1, 6)):
+      out.add((zd.name, ctx.rng.randrange(-25567, 25567)))
+  return [(byname[n], d) for n, d in sorted(out)]
+
+
+# ---------------------------------------------------------------------------------------------
+# correspondence: the model (translated core + Model/MomentTz.v + regenerated data) vs the running code
+
+IMPORTS = ['Grist.Lib.PyPrelude', 'Grist.Lib.PyList', 'Grist.Model.Moment', 'GristGen.Moment_gen',
+           'Grist.Model.MomentTz', 'GristGen.Tzdata_gen']
+EXTRA_DEFS = '''
+Definition us (x : Z) : Z := x * 60.
+Definition ous (x : option Z) : option Z := option_map us x.
+Definition chk_utc (z : zone) (c : Z * Z * option Z * Z * Z * Z) : bool :=
+  let '(ts, loc, fav, off, back, idx) := c in
+  let d := ts_to_dt 7 (us ts) z in
+  andb (dt_local d =? us loc) (andb (py_opt_eqb Z.eqb (dt_favor d) (ous fav))
+  (andb (tz_utcoffset 7 z d =? us off) (andb (dt_to_ts 7 z d =? us back) (zone_index 7 z (us ts) =? idx)))).
+Definition chk_local (z : zone) (c : Z * option Z * Z * Z * Z) : bool :=
+  let '(l, fav, idx, off, ts) := c in
+  andb (zone_index_dt 7 z (us l) (ous fav) =? idx)
+  (andb (zone_dt_offset 7 z (us l) (ous fav) =? us off) (local_to_ts 7 z (us l) (ous fav) =? us ts)).
+Definition chk_date (z : zone) (c : Z * Z * Z) : bool :=
+  let '(d, ts, back) := c in
+  andb (date_to_ts_zone 7 d z =? us ts) (adt_date (ts_to_dt 7 (date_to_ts_zone 7 d z) z) =? back).
+Definition chk_zone (c : zone * list Z * list Z * list Z) : bool :=
+  let '(z, u, o, ou) := c in
+  andb (py_list_eqb Z.eqb (z_untils z) (map (fun x => x * 60000) u))
+  (andb (py_list_eqb Z.eqb (z_offsets z) o) (py_list_eqb Z.eqb (z_offset_untils z) (map (fun x => x * 60000) ou))).
+Definition chk_group {A} (f : zone -> A -> bool) (g : zone * list A) : bool := forallb (f (fst g)) (snd g).
+'''
+GROUP = 40
+
+
+def _opt(x):
+  return core.optlit(x, core.zlit)
+
+
+def _tuple(*xs):
+  return '(' + ', '.join(xs) + ')'
+
+
+def run_grouped(ctx, name, check, items, describe):
+  """items: [(zone_data, coq_tuple_text, payload)]. Groups per zone, evaluates, reports failing payloads."""
+  groups = []
+  cur = None
+  for zd, text, payload in sorted(items, key=lambda it: it[0].name):
+    if cur is None or cur[0] is not zd or len(cur[1]) >= GROUP:
+      cur = (zd, [], [])
+      groups.append(cur)
+    cur[1].append(text)
+    cur[2].append(payload)
+  cases = ['(%s, %s)' % (coq_name(zd.name), core.coq_list(texts)) for zd, texts, _ in groups]
+  bad = ctx.run_cases(name, IMPORTS, 'chk_group %s' % check, cases, shard=250, timeout=900, extra_defs=EXTRA_DEFS)
+  ctx.bump('coq-cases:' + name, len(items))
+  if not bad:
+    return
+  # second pass: the failing groups one case at a time
+  singles = []
+  for gi in bad[:6]:
+    zd, texts, payloads = groups[gi]
+    for t, p in zip(texts, payloads):
+      singles.append(('(%s, [%s])' % (coq_name(zd.name), t), zd, p))
+  bad2 = ctx.run_cases(name + '_single', IMPORTS, 'chk_group %s' % check, [c for c, _, _ in singles],
+                       shard=250, timeout=900, extra_defs=EXTRA_DEFS)
+  for i in bad2[:5]:
+    _, zd, p = singles[i]
+    ctx.broken('correspondence:%s: model differs from moment.py' % name, describe(zd, p))
+  if not bad2:
+    ctx.broken('correspondence:%s' % name, 'groups %r fail but no single case does' % (bad[:6],))
+
+
+def correspond(ctx):
+  zones = zone_data()
+  if len(zones) != ctx.extra.get('zones', len(zones)):
+    raise core.TieBroken('zone list changed between regenerate and correspond')
+  trans = pick_transitions(ctx, zones)
+  ctx._c34 = {'trans': trans}
+
+  # the zone objects themselves (offset_untils as the running Zone computed it)
+  zsel = zones if ctx.tier == 'thorough' else [z for z in zones if z.name in FEATURED] + ctx.rng.sample(zones, 60)
+  zcases = ['(%s, %s, %s, %s)' % (coq_name(z.name), core.zlist(z.untils), core.zlist(z.offsets),
+                                   core.zlist([int(x) for x in z.zone.offset_untils])) for z in zsel]
+  bad = ctx.run_cases('zones', IMPORTS, 'chk_zone', zcases, shard=80, timeout=900, extra_defs=EXTRA_DEFS)
+  for i in bad[:5]:
+    ctx.broken('correspondence:zone data: model zone differs from moment.Zone', zsel[i].name)
+  ctx.bump('coq-cases:zones', len(zcases))
+
+  # instants: ts_to_dt, fromutc's favor, utcoffset, dt_to_ts, _index
+  utc = utc_instants(ctx, zones, trans)
+  ctx._c34['utc'] = utc
+  items = []
+  for zd, t, near in utc:
+    try:
+      r = impl_utc(zd, t)
+    except Exception as e:
+      ctx.violation('exception', 'ts_to_dt/dt_to_ts raised %r' % (e,), {'kind': 'roundtrip', 'zone': zd.name, 't_us': t})
+      continue
+    if not r['back_seconds_ok']:
+      ctx.broken('correspondence:dt_to_ts', 'dt_to_ts differs from its own expression at %s %d' % (zd.name, t))
+    items.append((zd, _tuple(core.zlit(t), core.zlit(r['local']), _opt(r['favor']), core.zlit(r['off']),
+                             core.zlit(r['back']), core.zlit(r['index'])), (t, r)))
+    ctx.count(('utc', zd.name, t), nontrivial=near, kind='instant-near-transition' if near else 'instant-far',
+              sample={'zone': zd.name, 't_us': t, 'local_us': r['local'], 'utcoffset_us': r['off'],
+                      'back_us': r['back']})
+  run_grouped(ctx, 'utc', 'chk_utc', items,
+              lambda zd, p: 'zone %s instant %d us: implementation gives %r' % (zd.name, p[0], p[1]))
+
+  # local times: _index_dt, dt_offset, TzInfo.utcoffset, dt_to_ts of naive + zone
+  loc = local_instants(ctx, zones, trans)
+  ctx._c34['local'] = loc
+  items = []
+  for zd, l, f, near in loc:
+    try:
+      r = impl_local(zd, l, f)
+    except Exception as e:
+      ctx.violation('exception', 'dt_offset raised %r' % (e,),
+                    {'kind': 'local', 'zone': zd.name, 'local_us': l, 'favor_us': f})
+      continue
+    if r['off'] != r['off_tzinfo'] or not r['ts_ok']:
+      ctx.broken('correspondence:utcoffset', 'TzInfo.utcoffset/dt_to_ts differ from Zone.dt_offset at %s %d %r: %r' % (
+        zd.name, l, f, r))
+    items.append((zd, _tuple(core.zlit(l), _opt(f), core.zlit(r['index']), core.zlit(r['off']), core.zlit(r['ts_us'])),
+                  (l, f, r)))
+    ctx.count(('local', zd.name, l, f), nontrivial=near, kind='local-near-transition' if near else 'local-far')
+  run_grouped(ctx, 'local', 'chk_local', items,
+              lambda zd, p: 'zone %s local %d us favor %r: implementation gives %r' % (zd.name, p[0], p[1], p[2]))
+
+  # dates with a zone
+  m = _m()
+  dcs = date_cases(ctx, zones, trans)
+  ctx._c34['dates'] = dcs
+  items = []
+  for zd, day in dcs:
+    d = m.DATE_EPOCH + _dt.timedelta(days=day)
+    try:
+      ts = m.date_to_ts(d, zd.zone)
+      got = m.ts_to_dt(ts, zd.zone)
+    except Exception as e:
+      ctx.violation('exception', 'date_to_ts raised %r' % (e,), {'kind': 'date-zone', 'zone': zd.name, 'day': day})
+      continue
+    t_us = round(ts * 1000000)
+    back = (got.date() - m.DATE_EPOCH).days
+    items.append((zd, _tuple(core.zlit(day), core.zlit(t_us), core.zlit(back)), (day, ts, back)))
+    ctx.count(('date', zd.name, day), nontrivial=True, kind='date')
+  run_grouped(ctx, 'dates', 'chk_date', items,
+              lambda zd, p: 'zone %s day %d: implementation gives ts %r, date %d' % (zd.name, p[0], p[1], p[2]))
+
+
+# ---------------------------------------------------------------------------------------------
+# search: the property's own oracle on the implementation
+
+def search(ctx):
+  zones = zone_data()
+  st = getattr(ctx, '_c34', None) or {}
+  trans = st.get('trans') or pick_transitions(ctx, zones)
+  nviol = 0
+  for zd, t, near in st.get('utc') or utc_instants(ctx, zones, trans):
+    try:
+      desc = oracle_roundtrip(zd, t)
+    except Exception as e:
+      desc = 'raised %r' % (e,)
+    ctx.bump('oracle:roundtrip')
+    if desc:
+      ctx.violation('roundtrip', desc, {'kind': 'roundtrip', 'zone': zd.name, 't_us': t})
+      nviol += 1
+      if nviol > 30:
+        break
+  nviol = 0
+  for zd, l, f, near in st.get('local') or local_instants(ctx, zones, trans):
+    try:
+      desc = oracle_local(zd, l, f)
+    except Exception as e:
+      desc = 'raised %r' % (e,)
+    ctx.bump('oracle:local-offset')
+    if desc:
+      ctx.violation('local-offset', desc, {'kind': 'local', 'zone': zd.name, 'local_us': l, 'favor_us': f})
+      nviol += 1
+      if nviol > 30:
+        break
+  nviol = 0
+  known = 0
+  for zd, day in st.get('dates') or date_cases(ctx, zones, trans):
+    try:
+      res = oracle_date_zone(zd, day)
+    except Exception as e:
+      res = ('date-zone:other', 'raised %r' % (e,))
+    ctx.bump('oracle:date-zone')
+    if res:
+      if res[0] == KNOWN_DATE_KIND:
+        known += 1
+        if known > 3:          # one finding; keep a few instances
+          continue
+      ctx.violation(res[0], res[1], {'kind': 'date-zone', 'zone': zd.name, 'day': day})
+      nviol += 1
+      if nviol > 30:
+        break
+  ctx.extra['date_zone_known_instances'] = known
+  for day in sorted({d for _, d in (st.get('dates') or [])} | {0, -1, 1, 20002, -25567, 2932896, -719162}):
+    try:
+      desc = oracle_date_utc(day)
+    except Exception as e:
+      desc = 'raised %r' % (e,)
+    ctx.bump('oracle:date-utc')
+    if desc:
+      ctx.violation('date-utc', desc, {'kind': 'date-utc', 'day': day})
+      break
+
+
+def replay(ctx, w):
+  zones = {z.name: z for z in zone_data()}
+  kind = w.get('kind')
+  try:
+    if kind == 'roundtrip':
+      return oracle_roundtrip(zones[w['zone']], w['t_us'])
+    if kind == 'local':
+      return oracle_local(zones[w['zone']], w['local_us'], w.get('favor_us'))
+    if kind == 'date-zone':
+      res = oracle_date_zone(zones[w['zone']], w['day'])
+      return res and '%s [%s]' % (res[1], res[0])
+    if kind == 'date-utc':
+      return oracle_date_utc(w['day'])
+  except Exception as e:
+    return 'raised %r' % (e,)
+  return None
